@@ -59,6 +59,25 @@ def run(ck):
     tmp = tempfile.mkdtemp(prefix="c02_", dir=CACHE)
     try:
         batches = []
+        # corpus first: minimised shapes of past failures and of seeded changes
+        corpus = []
+        for i, (members, feats) in enumerate([
+                (["short tag", "int : 0"], {"bitfield"}), (["int id", "long : 0"], {"bitfield"}), (["char c[3]", "int : 0"], {"bitfield", "array"}),
+                (["char a", "int : 0"], {"bitfield"}), (["int a", "char b", "long double c"], set()), (["char c", "long double a[2]"], {"array"}),
+                (["long a", "char b", "__int128 c", "char d"], set()), (["char a", "short b", "char c", "int d", "char e", "double f"], set()),
+                (["int a : 3", "int : 0", "char b"], {"bitfield"}), (["double d", "char c", "short : 0"], {"bitfield"})]):
+            rec = e2e.Rec("K%d" % i)
+            for j, m in enumerate(members):
+                nm = re.match(r".*?(\w+)(\[.*\])?$", m.split(":")[0].strip())
+                named = ":" not in m or not m.split(":")[0].strip().endswith(("int", "long", "short"))
+                bf = None
+                if ":" in m:
+                    base = m.split(":")[0].split()[0]
+                    bf = (base if base in ("int", "long", "short", "char") else "int", int(m.split(":")[1]))
+                rec.members.append({"name": (nm.group(1) if named else None), "decl": m, "bitfield": bf, "anon": not named})
+            rec.features = set(feats)
+            corpus.append(rec)
+        batches.append((-1, False, corpus, "\n".join(x.text() for x in corpus)))
         for b in range(10 if quick else 150):
             plain = b % 5 != 4 and b % 5 != 3
             g = e2e.Gen(r, bitfields=not plain, attrs=not plain)
@@ -67,7 +86,7 @@ def run(ck):
 
         def one(bt):
             b, plain, recs, hdr = bt
-            return bt, measure(bindgen, tmp, "b%d" % b, recs, hdr, [], trace=True)
+            return bt, measure(bindgen, tmp, "b%d" % (b if b >= 0 else 9999), recs, hdr, [], trace=True)
         with ThreadPoolExecutor(max_workers=vlib.NCPU) as ex:
             results = list(ex.map(one, batches))
         traces = []
@@ -141,6 +160,8 @@ def judge(ck, rec, c, rres, hdr):
         kind, msg = rres
         code = (re.search(r"E\d{4}", msg) or [None])[0] if kind == "rustc-error" else None
         cls = "C02-%s:%s:%s" % (kind, code or "other", grp)
+        if code == "E0133" and "__BindgenUnionField" in msg:
+            cls = "C02-rustc-error:E0133:union-bitfield"
         ck.violation(cls, "the bindings for this record type do not compile, so its layout cannot be right (%s)" % msg[:120], dict(data, error=msg))
         return
     if rres is None:
@@ -253,7 +274,13 @@ def trace_term(lines):
             steps.append("(SawBase %s, Some %s, None)" % ("(Some (%s, %s))" % lay.groups() if lay else "None", state))
         elif c[0] == "saw_flexible_array":
             steps.append("(SawFlexibleArray, Some %s, None)" % state)
-        elif c[0] in ("padding_field", "requires_explicit_align", "add_tail_padding", "pad_struct"):
+        elif c[0] in ("add_tail_padding", "pad_struct"):
+            # logged at entry; the blob, if one is emitted, is the next line (padding_field)
+            nxt = lines[li + 1].split("|")[1].strip() if li + 1 < len(lines) else ""
+            pm = re.match(r"padding_field size=(\d+) align=(\d+)", nxt)
+            pad = "(Some (%s, %s))" % pm.groups() if pm else "None"
+            steps.append("(%s %s %s, None, %s)" % ("AddTailPadding" if c[0] == "add_tail_padding" else "PadStruct", kv["size"], kv["align"], pad))
+        elif c[0] in ("padding_field", "requires_explicit_align"):
             # entry-logged calls (state before = state after the previous call) and the blob log: the padding layouts are
             # already checked through saw_field's pad=; tail/struct padding is checked by the end-to-end numbers
             continue
